@@ -168,6 +168,13 @@ def run_case(case, tier):
             # process with different cut-offs must each respect their own maximum
             ov["coulomb_cutoff1"] = rng.choice((4.0, 6.0, 3.0, 5.0))
             ov["coulomb_cutoff2"] = rng.choice((10.0, 8.0, 12.0))
+        if case["kind"] == "fragment" and case["frag"].startswith("ion:") and rng.random() < 0.6:
+            # another oxidation state for the ion of this case: the row of the ions table defined again, after the
+            # shipped one (the sign stays what chemistry says)
+            ion_ = case["frag"][4:]
+            q0_ = int(util.parse_cfg()["ions"][ion_])
+            ov["ions " + ion_] = rng.choice([q_ for q_ in (1, 2, 3) if q_ != abs(q0_)]) * (1 if q0_ > 0 else -1)
+            classes.append("ion-charge-redefined")
         opts = ["-p", util.write_cfg(ov)]
         classes.append("parameter-file")
         desc["params"] = ov
